@@ -23,7 +23,7 @@ RULE = (
 )
 MIN_NONTRIVIAL = {"quick": 150, "thorough": 2500}
 SHARDS = {"quick": 1, "thorough": 8}
-GENERATOR = {"tables": "3 shipped, build_pvt_gas to 3000/6000 psia, 6 synthetic families x 12..400 nodes, uniform / non-uniform", "p_i": "node / off-node / below / above"}
+GENERATOR = {"tables": "3 shipped, build_pvt_gas to 3000/6000 psia, 6 synthetic families x 12..400 nodes, uniform / non-uniform; 30 % re-expressed in other unit systems (compressibility x 1e-10..1e3, viscosity x 1e-6..1e3)", "p_i": "node / off-node / below / above"}
 ASSUMPTIONS = [
     "'raise an error' accepts any Exception subclass",
     "alpha branch off-node: 1 <= m_i <= (m_k + m_k+1)^2 / (4 m_k m_k+1), the exact range of linear "
@@ -92,6 +92,8 @@ def generate(ck):
                 "pi_mode": str(rng.choice(["node", "off", "off", "off", "node", "last", "first", "node", "off", "below", "above"])),
                 "u": [float(v) for v in rng.random(6)],
                 "drop": str(rng.choice(["", "pressure", "pseudopressure", "viscosity", "compressibility", "z-factor", "alpha"])) if rng.random() < 0.15 else "",
+                # the same table in other unit systems (SI: c mu ~ 1e-13): positive is all that is required
+                "unit_scale": [float(10.0 ** rng.uniform(-10, 3)), float(10.0 ** rng.uniform(-6, 3))] if rng.random() < 0.3 else [1.0, 1.0],
                 "queries": [float(v) for v in np.concatenate([rng.normal(0, 2, 4), 10.0 ** rng.uniform(-300, 300, 3), -(10.0 ** rng.uniform(-300, 300, 2))])],
             }
         )
@@ -102,6 +104,9 @@ def _materialise(desc):
     tab = tables.from_desc(desc["table"])
     cols = ["pressure", "pseudopressure", "compressibility", "viscosity", "z-factor", "density"]
     d = {c: np.array(tab[c], dtype=float) for c in cols if c in tab}
+    sc, sm = desc.get("unit_scale", [1.0, 1.0])
+    d["compressibility"] = d["compressibility"] * sc
+    d["viscosity"] = d["viscosity"] * sm
     if desc["branch"] == "alpha":
         d = {"pressure": d["pressure"], "pseudopressure": d["pseudopressure"], "alpha": 1 / (d["compressibility"] * d["viscosity"])}
         keep = d["pseudopressure"] > 0
@@ -269,3 +274,11 @@ def finalize_shard(ck):
     for label in REACH.total:
         ck.reach[label] = set(REACH.hit[label] & REACH.total[label])
         ck.reach[label + "#total"] = len(REACH.total[label])
+
+
+def finalize(ck):
+    if ck.tier == "thorough":
+        # the repository's own tests as an additional monitored workload (DESIGN section 4)
+        from vf import pytest_monitors
+
+        pytest_monitors.run_repo_tests_under_monitors(ck, PID)
